@@ -287,6 +287,9 @@ s_79 == <<55, 57>>
 s_3739 == <<51, 55, 51, 57>>
 FailTfs == {<<"hexDecode", "lowercase">>, <<"hexDecode", "trim", "lowercase">>, <<"lowercase">>}
 RepTfs == {<<"hexEncode">>, <<"hexEncode", "hexEncode">>, <<"lowercase", "hexEncode", "hexEncode">>}
+\* chains that come back to the value they started from: the intermediate value is only seen under multiMatch
+RoundTfs == {<<"lowercase", "uppercase">>, <<"uppercase", "lowercase">>, <<"hexEncode", "hexDecode">>, <<"lowercase">>}
+CacheRuleMM(id, tg, tfs, lit) == MkRule(id, 2, <<RuleLink(<<tg>>, tfs, OpLit("streq", lit), TRUE, << >>)>>)
 CacheChain(id, tfs) ==
   MkRule(id, 2, <<RuleLink(<<T("ARGS_GET")>>, << >>, OpLit("contains", s_x), FALSE, << >>),
                   RuleLink(<<T("MATCHED_VAR")>>, tfs, OpLit("streq", s_x), FALSE, << >>)>>)
@@ -297,12 +300,16 @@ CachePicks(maxEntries, rich, slice, slices) ==
   \cup
   [t1 : RepTfs, g2 : {T("ARGS_GET")}, t2 : RepTfs, third : {"none"}, lit : {s_79, s_3739},
    rq : SliceOf(SeqsOfLen(CacheEntries, maxEntries), slice, slices)]
+  \cup  \* a multiMatch rule behind a rule that ran the same (or a shorter) list: every distinct intermediate value is still seen
+  [t1 : RoundTfs, g2 : {T("ARGS_GET"), TK("ARGS_GET", s_a)}, t2 : RoundTfs, third : {"mm"}, lit : {s_x, s_X, s_79},
+   rq : SliceOf(SeqsOfLen(CacheEntries, maxEntries), slice, slices)]
   \cup  \* a step that fails on these values (they are not hexadecimal) in front of steps that work
   [t1 : FailTfs, g2 : {T("ARGS_GET"), TK("ARGS_GET", s_a)}, t2 : FailTfs, third : {"none"}, lit : {s_x},
    rq : SliceOf(SeqsOfLen(CacheEntries, maxEntries), slice, slices)]
 CacheScen(pk) ==
-  MkScen(<<CacheRuleLit(10, T("ARGS_GET"), pk.t1, pk.lit), CacheRuleLit(20, pk.g2, pk.t2, pk.lit)>>
-         \o (IF pk.third = "none" THEN << >>
+  MkScen(<<CacheRuleLit(10, T("ARGS_GET"), pk.t1, pk.lit),
+           IF pk.third = "mm" THEN CacheRuleMM(20, pk.g2, pk.t2, pk.lit) ELSE CacheRuleLit(20, pk.g2, pk.t2, pk.lit)>>
+         \o (IF pk.third \in {"none", "mm"} THEN << >>
              ELSE IF pk.third = "chainA" THEN <<CacheChain(30, pk.t1)>>
              ELSE <<CacheChain(30, pk.t1), CacheChain(40, pk.t1)>>),
          pk.rq, "On")
